@@ -258,6 +258,8 @@ def main(argv=None):
     # lower layers whose specifications this check relies on: their obligations are part of this check's claim (framework.Check.include)
     for dep in ['C06', 'C02', 'C03', 'C04', 'C05', 'C07', 'C01', 'C08', 'C10', 'C19', 'C20']:
         chk.include(dep)
+    # objects that arrive through unmarshal are the marshalled ones (parameters and keys loaded from bytes are part of 'reachable through the API'): C15's own obligations
+    chk.include("C15")
     # the property quantifies over the keys reachable by delegation; the obligations above start from an arbitrary well-formed key, so the
     # step 'every key-producing operation returns a well-formed key (all components, bsig included, under one exponent)' is part of the claim
     chk.include("C11", only=r"^(keygen|nondelegable_keygen|resamplekey|qualifykey|nondelegable_qualifykey|adjust_nondelegable):")
